@@ -20,7 +20,7 @@ RULE = (
     "out-of-domain literals (float ids, string/float/negative enum values, unknown or ill-arity "
     "parameters, empty enum, u0/u99, huge numbers, wrong version); (d) random ASCII / unicode / control "
     "text and the empty string, strings with long backslash runs (terminated or not); (e) type / value nesting to depth 5000 (far beyond the interpreter's recursion limit); (f) the same faults inside imported "
-    "module files.  Monitors: exception escape (any BaseException), result type (Ok/Err), "
+    "module files; nested inputs parsed with 20..520 stack frames of headroom (sys.setrecursionlimit around the call: RecursionError injected at every depth of the front end's call tree).  Monitors: exception escape (any BaseException), result type (Ok/Err), "
     "Logger.error(err) must render, every [file.fcp:line] citation must name a registered source and "
     "an existing line and the quoted source text must be that line; every third input is parsed and "
     "rendered through one long-lived shared Logger (history of parses); CPU budget 20 s per input (twice in isolation => violation).  distinct = "
@@ -81,6 +81,16 @@ def norm(msg):
     return msg[:90]
 
 
+class _BareWriter:
+    """The minimum a stream needs to receive print(): write and flush, nothing else."""
+
+    def write(self, s):
+        return len(s)
+
+    def flush(self):
+        pass
+
+
 def judge(run, kind, parse, text, sources_hint=None):
     """parse() -> (result, logger).  Returns outcome key."""
     case = {"class": kind, "text": text}
@@ -126,7 +136,21 @@ def judge(run, kind, parse, text, sources_hint=None):
     run.count("outcome_err")
     err = res.err()
     try:
-        rendered = PC.ANSI.sub("", lg.error(err))
+        k = run.counters.get("errors_rendered", 0) % 7
+        if k in (3, 5):
+            # the diagnostic is a returned string: rendering may not depend on the process having a usable
+            # terminal-like sys.stdout (services and GUI hosts run with sys.stdout = None or a bare writer)
+            import sys as _sys
+
+            saved = _sys.stdout
+            _sys.stdout = None if k == 3 else _BareWriter()
+            try:
+                rendered = PC.ANSI.sub("", lg.error(err))
+            finally:
+                _sys.stdout = saved
+            run.count("errors_rendered_without_a_terminal_like_stdout")
+        else:
+            rendered = PC.ANSI.sub("", lg.error(err))
     except KeyboardInterrupt:
         raise
     except BaseException as e:
@@ -214,6 +238,42 @@ def string_parse(text):
     return lambda: PC.parse_string(text)
 
 
+def limited_parse(text, headroom):
+    """parse() that runs with only `headroom` stack frames left (sys.setrecursionlimit around the call):
+    the interpreter's RecursionError is then raised at a chosen depth INSIDE the front end - a fault
+    injected at every level of its call tree as the headroom is swept."""
+    import inspect
+    import sys as _sys
+
+    inner = string_parse(text)
+
+    def f():
+        old = _sys.getrecursionlimit()
+        _sys.setrecursionlimit(len(inspect.stack(0)) + headroom)
+        try:
+            return inner()
+        finally:
+            _sys.setrecursionlimit(old)
+
+    return f
+
+
+def recursion_fault_sweep(run):
+    texts = [
+        'version: "3"\nstruct A { a @0: ' + "[" * 30 + "T" + "]" * 30 + ", }",
+        'version: "3"\nstruct A { a @0: ' + "Optional[" * 25 + "u8" + "]" * 25 + " | unit(\"V\"), }",
+        'version: "3"\nstruct B { b @0: u8, }\nstruct A { a @0: ' + "[" * 20 + "B" + ", 2]" * 20 + ", }\nimpl can for A { id: " + "[" * 20 + "1" + "]" * 20 + ", }",
+        'version: "3"\nenum E { X = 1, }\nservice S @1 { method M(A) @0 returns B, }\ndevice d { k: [[[["x"]]]], }',
+    ]
+    lo, hi, step = run.pick((24, 330, 2), (20, 520, 1))
+    for headroom in range(lo, hi, step):
+        if not run.mine(headroom):
+            continue
+        t = texts[headroom % len(texts)]
+        judge(run, "stack-headroom", limited_parse(t, headroom), t + "\n// parsed with %d stack frames of headroom" % headroom)
+        run.count("parses_with_limited_stack")
+
+
 def run(run):
     import fcp.parser as P
 
@@ -290,6 +350,7 @@ def run(run):
                     break
             for t in ["", " ", "\n", "\x00", "﻿", "//", "/*", "/* */", "version", "version:", 'version: "3', 'version: "3"', 'version: "3"\n' * 3]:
                 judge(run, "tiny", string_parse(t), t)
+        recursion_fault_sweep(run)
         nrand = run.pick(800, 20000)
         for k in range(nrand):
             if not run.mine(k):
@@ -323,5 +384,11 @@ def replay(run, case):
             judge(run, case["class"], lambda: PC.parse_file(p), case["text"], case["files"])
         finally:
             shutil.rmtree(tmp, ignore_errors=True)
+    elif case["class"] == "stack-headroom":
+        m = re.search(r"// parsed with (\d+) stack frames of headroom", case["text"])
+        text = case["text"].split("\n// parsed with")[0]
+        # the fault position depends on the caller's own stack depth: replay a small window around it
+        for h in range(max(20, int(m.group(1)) - 12), int(m.group(1)) + 13):
+            judge(run, "stack-headroom", limited_parse(text, h), text + "\n// parsed with %d stack frames of headroom" % h)
     else:
         judge(run, case["class"], string_parse(case["text"]), case["text"])
